@@ -276,6 +276,7 @@ def r4_sanitizer(chk: Check) -> None:
     rep_ = [c for c in body_calls(su) if last_attr(c) == "_replace" and kwarg(c, "netloc") is not None]
     nl = kwarg(rep_[0], "netloc").id if rep_ and isinstance(kwarg(rep_[0], "netloc"), ast.Name) else "netloc"  # type: ignore[union-attr]
     netloc_assign = [s for s, v in assignments_to(su.node, nl) if v is not None and "replacement" in unparse(v)]
+    has_netloc = bool(netloc_assign)
     if not netloc_assign:
         chk.violation("C15.R4", su, "authority redacted when userinfo is present", "URL userinfo is never redacted", su.loc())
     else:
@@ -325,7 +326,7 @@ def r4_sanitizer(chk: Check) -> None:
     qv = pfind("$q = parse_qs($p.query, keep_blank_values=True)", su.node)
     chk.expect(bool(qv) and phas("sanitize_value($q, config=config)", su.node, env={"q": qv[0][1]["q"]}), "C15.R4", su, "query parameters sanitized by key", "query parameters are not sanitized", su.loc())
     rq = kwarg(rep_[0], "query") if rep_ else None
-    chk.expect(bool(rep_) and bool(qv) and bool(netloc_assign) and any(f"urlencode({name_of(qv[0][1], 'q')}" in x for x in canon(su, rq)), "C15.R4", su, "sanitized parts are what is returned", "the URL is rebuilt from unsanitized parts", su.loc())
+    chk.expect(bool(rep_) and bool(qv) and has_netloc and any(f"urlencode({name_of(qv[0][1], 'q')}" in x for x in canon(su, rq)), "C15.R4", su, "sanitized parts are what is returned", "the URL is rebuilt from unsanitized parts", su.loc())
     # defaults contain the credential-bearing header names the property lists
     mod = su.module
     keys = next((s.value for s in mod.tree.body if isinstance(s, ast.Assign) and unparse(s.targets[0]) == "DEFAULT_KEYS_TO_SANITIZE"), None)
